@@ -99,8 +99,8 @@ func (c *Ctx) codecRun() map[string]*simpleVerdict {
 						v.undec = st.ctor + ": " + out.why
 						return
 					}
-					enc := c.Prog.LookupMethod(qt, nil, "EncodeString")
-					dec := c.Prog.LookupMethod(qt, nil, "DecodeString")
+					enc := c.lookupMethod(qt, "EncodeString")
+					dec := c.lookupMethod(qt, "DecodeString")
 					if enc == nil || dec == nil {
 						v.undec = "EncodeString/DecodeString not found on " + qt.String()
 						return
